@@ -486,6 +486,46 @@ func checkC19(r *mc.Report, thorough bool) {
 			}
 		}
 	}
+	// late response: request A times out, its response arrives when the client has already sent request B
+	for _, kind := range []string{"tcp", "rtu"} {
+		var tr modbus.Transport
+		var sp *scriptPort
+		if kind == "rtu" {
+			sp = &scriptPort{}
+			tr = modbus.NewRTU(sp)
+		} else {
+			sc := &scriptConn{}
+			sp = &sc.scriptPort
+			tr = modbus.NewTCP(sc, time.Second, modbus.TransportClient)
+		}
+		var late []byte
+		calls := 0
+		sp.answer = func(req []byte) []byte {
+			calls++
+			if calls == 1 {
+				// the answer to A (register 2 = 0x1111) is produced but delivered late
+				if kind == "tcp" {
+					late = []byte{req[0], req[1], 0, 0, 0, 5, 1, 3, 2, 0x11, 0x11}
+				} else {
+					late, _ = tr.Encode(1, modbus.PDU{FunctionCode: 3, Data: []byte{2, 0x11, 0x11}})
+				}
+				return nil
+			}
+			return late // B receives A's stale frame first
+		}
+		c := modbus.NewClient(tr, 0)
+		_, errA := c.ReadHoldingRegs(1, 2, 1)
+		regs, errB := c.ReadHoldingRegs(1, 3, 1)
+		p.Case(true)
+		p.Step(2)
+		if errA == nil {
+			p.Violation("timeout-not-reported/"+kind, "request without any response returned no error", nil)
+		}
+		// over RTU nothing in the frame tells A's answer from B's (no transaction id): only TCP must reject it
+		if kind == "tcp" && errB == nil {
+			p.Violation("stale-response-accepted/tcp", fmt.Sprintf("the late response to the previous (timed-out) transaction was returned as the answer to the next request: %v", regs), map[string]any{"transport": kind, "request": "ReadHoldingRegs", "mutation": "late response of previous transaction"})
+		}
+	}
 	p.Done()
 
 	// ---- conversions
